@@ -4,6 +4,7 @@ import (
 	"encoding/base64"
 	"encoding/json"
 	"fmt"
+	"os"
 	"sort"
 	"strings"
 	"time"
@@ -18,7 +19,13 @@ func cloneCase(c caseRec) caseRec {
 
 // minimise shrinks a failing case while the same class and signature persist.
 // Every candidate is judged by a fresh worker process.
-func minimise(s *scratch, c caseRec, class, sig string, budget time.Duration) caseRec {
+func minimise(s *scratch, c caseRec, class, sig string, budget time.Duration) (result caseRec) {
+	defer func() {
+		if r := recover(); r != nil {
+			fmt.Fprintf(os.Stderr, "simcheck: minimiser failed (%v); reporting the case as found\n", r)
+			result = c
+		}
+	}()
 	deadline := time.Now().Add(budget)
 	tries := 0
 	fails := func(cand caseRec) bool {
@@ -134,7 +141,7 @@ func minimise(s *scratch, c caseRec, class, sig string, budget time.Duration) ca
 	// 4. files: drop, then line-level ddmin (not for kinds whose files are tied to a reference)
 	if kind != "cut" && kind != "name" {
 		proj, _ := cur["project"].(map[string]any)
-		if proj != nil {
+		if files0, _ := proj["files"].(map[string]any); proj != nil && len(files0) > 0 {
 			files, _ := proj["files"].(map[string]any)
 			root := fmt.Sprint(proj["root"])
 			var names []string
